@@ -1,5 +1,6 @@
 import Py4hwV.Drv.Proto
 import Py4hwV.Proto.AxiSpec
+import Py4hwV.Proto.AxiClk
 /- C16 driver: runs the executable definitions of Proto/Axi.lean and Proto/AxiSpec.lean.
    a2r  | W,DW    | active,loaded,q        | start,reset,done,tvalid,tdata ; …            → per cycle: state(3),wires(8) ; …
    a2rG | …  same, through the composition of the GENERATED leaf definitions
@@ -7,7 +8,10 @@ import Py4hwV.Proto.AxiSpec
    r2aG | …
    oa2r | W       | active,loaded,q,tready | start,reset,done,tvalid,tdata,active',loaded',q',tready' ; …   → verdict
    or2a | mode(0 literal,1 quiet,2 tolerant),W,DW,KW | tvalid,tdata,tlast,tkeep,sent,active | start,reset,done,load,reg_in,tready,tvalid',…,active' ; … → verdict
-   ports | a2r|r2a                          → name:isInput,…
+   clk  | CW      | active,state,target,count,clk_out,load_outs | start,reset,done,tvalid,tdata ; …   → per cycle: state(6),active_handshake
+   clkG | …  same, through Gen.Axi2ClkFSM.step
+   oclk | strict,CW | clk_out,load_outs,active,tready | start,reset,done,tvalid,tdata,clk_out',load_outs',active',tready' ; … → verdict
+   ports | a2r|r2a|clk                          → name:isInput,…
    keep | W                                 → tkeepVal W
    verdict: `ok` | `stop t` | `fail t clause pend` -/
 open Proto Axi
@@ -35,6 +39,12 @@ def r2aRun (g : Bool) (c : R2A.Cfg) : R2A.St → List R2A.In → List (List Nat)
     [s'.active, s'.tvalid, s'.tdata, s'.sent, w.inactive, w.handshake, w.ap_start_inactive, w.active_handshake, w.one,
       w.reset_tvalid, w.set_tvalid, w.tkeep, w.tlast, w.reset_sent, w.reset_active] :: r2aRun g c s' is
 
+def clkRun (g : Bool) (c : Clk.Cfg) : Clk.St → List Clk.In → List (List Nat)
+  | _, [] => []
+  | s, i :: is =>
+    let s' := if g then Clk.stepG c s i else Clk.step c s i
+    [s'.active, s'.state, s'.target, s'.count, s'.clk_out, s'.load_outs, Clk.activeHandshake s' i] :: clkRun g c s' is
+
 def showRows (r : List (List Nat)) : String := ";".intercalate (r.map showNats)
 
 def handle (line : String) : String :=
@@ -50,6 +60,12 @@ def handle (line : String) : String :=
     | "r2a" | "r2aG" =>
       showRows (r2aRun (op == "r2aG") ⟨nat c 0, nat c 1, nat c 2⟩ ⟨nat s 0, nat s 1, nat s 2, nat s 3⟩
         (cy.map fun l => ⟨nat l 0, nat l 1, nat l 2, nat l 3, nat l 4, nat l 5⟩))
+    | "clk" | "clkG" =>
+      showRows (clkRun (op == "clkG") ⟨nat c 0⟩ ⟨nat s 0, nat s 1, nat s 2, nat s 3, nat s 4, nat s 5⟩
+        (cy.map fun l => ⟨nat l 0, nat l 1, nat l 2, nat l 3, nat l 4⟩))
+    | "oclk" =>
+      showVerdict (Spec.Clk.check (nat c 0 != 0) (nat c 1) ⟨nat s 0, nat s 1, nat s 2, nat s 3⟩
+        (cy.map fun l => (⟨nat l 0, nat l 1, nat l 2, nat l 3, nat l 4⟩, ⟨nat l 5, nat l 6, nat l 7, nat l 8⟩)))
     | "oa2r" =>
       showVerdict (Spec.A2R.check (nat c 0) ⟨nat s 0, nat s 1, nat s 2, nat s 3⟩
         (cy.map fun l => (⟨nat l 0, nat l 1, nat l 2, nat l 3, nat l 4⟩, ⟨nat l 5, nat l 6, nat l 7, nat l 8⟩)))
@@ -60,7 +76,7 @@ def handle (line : String) : String :=
                           ⟨nat l 6, nat l 7, nat l 8, nat l 9, nat l 10, nat l 11⟩)))
     | _ => "bad-op"
   | ["ports", k] =>
-    let p := if k == "a2r" then A2R.ports else if k == "r2a" then R2A.ports else []
+    let p := if k == "a2r" then A2R.ports else if k == "r2a" then R2A.ports else if k == "clk" then Clk.ports else []
     ",".intercalate (p.map fun (n, b) => s!"{n}:{showBool b}")
   | ["keep", w] => toString (R2A.tkeepVal (nat (parseInts w) 0))
   | _ => "bad-op"
